@@ -38,7 +38,7 @@ EXPLANATION = (
     'information. The two unordered sources the statement names - os.environ iteration and directory listings (iterdir/listdir/scandir/'
     'glob/os.walk) - are typed like sets: armed in the text-producing modules; in dependency / compiler / tool detection they are '
     'information (probing depends on the layout found), except the shape that provably discards a written priority order (source '
-    'filtered by membership in a list/tuple and collected in source order). Hash order is armed as well in the modules that compute what the text producers write verbatim (dependency flattening, compile / link arguments, compiler-check inputs, wrap providers: dependencies/, compilers/, linkers/, interpreter/, wrap/, arglist, programs, utils/core, environment) for functions whose text shows a set construction or annotation; the uses listed in ARG_INFO (cache key, candidate lists the caller sorts, message text, devenv paths, method sets only tested for membership) are information. R2 (K3): in NinjaBuildElement.write every set-typed attribute reaches the written text only through sorted(). '
+    'filtered by membership in a list/tuple and collected in source order). mesonbuild/cargo/ is not detection but a translator of source-tree manifests into the build definition (generated meson.build AST, build-definition file list): a directory listing collected there into a sequence that leaves the function is armed like in the text producers (glob workspace members); a generator that only hands the listing on to its callers stays information. Hash order is armed as well in the modules that compute what the text producers write verbatim (dependency flattening, compile / link arguments, compiler-check inputs, wrap providers: dependencies/, compilers/, linkers/, interpreter/, wrap/, arglist, programs, utils/core, environment) for functions whose text shows a set construction or annotation; the uses listed in ARG_INFO (cache key, candidate lists the caller sorts, message text, devenv paths, method sets only tested for membership) are information. R2 (K3): in NinjaBuildElement.write every set-typed attribute reaches the written text only through sorted(). '
     'R3 (K1/K2): the five sibling writers of configure-time files open a temporary path, every normal path ends in '
     'replace_if_different(final, temporary) and that call is only reachable after the writer was closed (with-exit / close()); the same holds for module methods that write a '
     'file and return it as File.from_built_file (a source / input of build edges); copy mode of configure_file uses a copy that keeps the '
@@ -56,6 +56,7 @@ EXPLANATION = (
     'mesonbuild/modules/*.py (information in the thorough tier: _qt tools dict, gnome gresource lookup, hotdoc include list - not exercised), '
     'run-state files that no build edge reads and that are rewritten on every configuration by design (intro-*.json, meson-private/*.dat, '
     'depmf.json, install/test pickles), the stale declaration kept by OptionStore.update_project_options for an unchanged type (C08), '
+    'whether a dict filled in listing order by the caller of a listing generator is ever iterated (Manifest.bin filled from os.listdir(src/bin): only looked up by key / len today - round-14 probe: no generated file changes), '
     'orders that come from the file system or the environment, or hash order hidden behind untyped values (reported as information).')
 ASSUMPTIONS = ['annotations T.Set/FrozenSet/AbstractSet/MutableSet and set()/frozenset()/{...} constructions denote builtin hash-ordered sets',
                'dict, list, OrderedSet, OrderedDict, deque keep insertion order; sorted() over str/int/tuples of those is total',
@@ -152,6 +153,16 @@ def _violation_text(s: Site) -> str:
 WIDE_DIRS = ('mesonbuild/dependencies/', 'mesonbuild/compilers/', 'mesonbuild/cmake/', 'mesonbuild/cargo/', 'mesonbuild/linkers/')
 WIDE_FILES = ('mesonbuild/environment.py', 'mesonbuild/envconfig.py', 'mesonbuild/programs.py', 'mesonbuild/machinefile.py')
 _SRC_PAT = None
+# Not detection: these modules translate the manifests found in the *source tree* into the build definition (members of a Cargo
+# workspace -> the generated meson.build AST and the list of build-definition files build.ninja regenerates on).  A directory
+# listing there is input of a text producer, armed like in SCOPE - for the shape whose order is content inside the function: the
+# listing collected into a sequence that leaves it.  A generator only hands the elements on (the consumer - possibly a keyed
+# registry, R6 - is in its callers, which this sweep does not follow): information.
+TRANSLATOR_DIRS = ('mesonbuild/cargo/',)
+
+
+def _is_generator(fn: ast.AST) -> bool:
+    return any(isinstance(n, (ast.Yield, ast.YieldFrom)) for n in walk_no_nested(fn))
 
 
 def _unordered_sweep(ctx: RuleCtx, scope: T.List[str]) -> None:
@@ -163,7 +174,7 @@ def _unordered_sweep(ctx: RuleCtx, scope: T.List[str]) -> None:
     if _SRC_PAT is None:
         _SRC_PAT = re.compile(r'iterdir\(|os\.listdir|os\.scandir|glob\.i?glob|\.rglob\(|\.glob\(|os\.walk|os\.environ\.(items|keys|values)\(|in os\.environ\b|\(os\.environ\)')
     sc = _scanner(ctx)
-    nfun = nsites = 0
+    nfun = nsites = ntranslated = 0
     for rel in ctx.repo.py_files('mesonbuild'):
         if rel in scope or not (rel.startswith(WIDE_DIRS) or rel in WIDE_FILES):
             continue
@@ -184,12 +195,21 @@ def _unordered_sweep(ctx: RuleCtx, scope: T.List[str]) -> None:
                 lost = sc.priority_discarded(s, fc) if s.verdict in ('violation', 'info') else None
                 if lost and s.verdict == 'violation':
                     ctx.violation(s.mod, s.func, s.node, _violation_text(s) + '; ' + lost, s.value)
+                elif s.verdict == 'violation' and rel.startswith(TRANSLATOR_DIRS) and 'directory-listing' in s.ty.why \
+                        and not _is_generator(fn):
+                    ntranslated += 1
+                    ctx.violation(s.mod, s.func, s.node, _violation_text(s) + '; this module translates source-tree manifests into the '
+                                  'build definition (generated meson.build, build-definition file list of build.ninja / intro-buildsystem_files.json): '
+                                  'the sequence must not follow readdir order - wrap the listing in sorted()', s.value)
                 elif s.verdict in ('benign', 'sanitised'):
+                    ntranslated += rel.startswith(TRANSLATOR_DIRS) and 'directory-listing' in s.ty.why
                     ctx.ok(f'{_describe(s)} -> {s.verdict}{": " + s.reason if s.reason else ""}'[:300])
+                elif rel.startswith(TRANSLATOR_DIRS) and _is_generator(fn):
+                    ctx.note(f'manifest translator, not decided (a generator hands the listing on; its consumers are in the callers, not followed): {_describe(s)}'[:320])
                 else:
                     ctx.note(f'probing order not decided ({s.verdict}): {_describe(s)}: {s.reason}'[:320])
     ctx.floor('detection functions that read the environment / list directories', nfun, 10)
-    ctx.note(f'unordered-source sweep: {nfun} functions, {nsites} uses')
+    ctx.note(f'unordered-source sweep: {nfun} functions, {nsites} uses; {ntranslated} directory listings collected into a sequence decided in the manifest translators')
 
 
 # modules that compute what the text producers write verbatim: dependency lists, compile / link / command arguments, compiler-check
